@@ -428,6 +428,7 @@ class Ctx:
         self.fi = fi
         self.depth = depth
         self._defs: Optional[dict] = None
+        self._loop_defs: dict = {}
 
     # package signature lookup for keyword binding
     def sig(self, short: str, call: ast.Call):
@@ -440,6 +441,7 @@ class Ctx:
         fn = self.fi.node
         count: dict[str, int] = {}
         expr: dict[str, ast.AST] = {}
+        loop_assign: dict[str, tuple] = {}
         params = {a.arg for a in fn.args.args + fn.args.kwonlyargs + fn.args.posonlyargs}
         if fn.args.vararg:
             params.add(fn.args.vararg.arg)
@@ -471,8 +473,12 @@ class Ctx:
                                     bump(tt, vv if isinstance(tt, ast.Name) and not (names & reads) else None)
                                 continue
                             bump(t, x.value if len(x.targets) == 1 and not nested(x) else None)
+                            if len(x.targets) == 1 and nested(x) and isinstance(t, ast.Name):
+                                loop_assign[t.id] = (x.value, x)
                     elif isinstance(x, ast.AnnAssign) and x.value is not None:
                         bump(x.target, x.value if not nested(x) else None)
+                        if nested(x) and isinstance(x.target, ast.Name):
+                            loop_assign[x.target.id] = (x.value, x)
                     elif isinstance(x, ast.AugAssign):
                         bump(x.target)
                         bump(x.target)
@@ -514,6 +520,14 @@ class Ctx:
                             count[nm] = count.get(nm, 0) + 2
         visit(fn.body, lambda x: id(x) in in_loop)
         self._defs = {k: v for k, v in expr.items() if count.get(k) == 1 and k not in params}
+        # a name assigned exactly once, inside a loop body, is a temporary *within one iteration*: usable at a later statement of the block it
+        # is assigned in, as long as nothing it reads is re-bound / mutated in between (checked per use in resolve)
+        self._loop_defs = {}
+        for k, (v, st) in loop_assign.items():
+            if count.get(k) == 1 and k not in params:
+                blk = _block_of(fn, st)
+                if blk is not None:
+                    self._loop_defs[k] = (v, st, blk)
         # closure variables: a name that this (nested) function neither binds nor receives is read from the enclosing function;
         # if it is a single-assignment temporary there, it is one here too
         parent = getattr(self.fi, "parent", None)
@@ -579,6 +593,14 @@ class Ctx:
             def visit_Name(self, x):
                 if isinstance(x.ctx, ast.Load) and x.id in defs and x.id not in keep and _depth < maxdepth:
                     return ctx.resolve(defs[x.id], keep, helpers, _depth + 1, maxdepth, keep_calls)
+                if isinstance(x.ctx, ast.Load) and x.id in ctx._loop_defs and x.id not in keep and _depth < maxdepth:
+                    v, st, blk = ctx._loop_defs[x.id]
+                    if _usable_at(v, st, blk, getattr(x, "lineno", None)):
+                        r = ctx.resolve(v, keep, helpers, _depth + 1, maxdepth, keep_calls)
+                        for y in ast.walk(r):            # the inlined expression is evaluated where the temporary was assigned
+                            if hasattr(y, "lineno"):
+                                y.lineno = st.lineno
+                        return r
                 return x
 
             def visit_Lambda(self, x):
@@ -612,6 +634,60 @@ class Ctx:
                 return _subst(ret, bind)
 
         return Canon().visit(R().visit(copy.deepcopy(node)))
+
+
+def _block_of(fn, stmt):
+    """the statement list that directly contains stmt"""
+    for x in ast.walk(fn):
+        for fld in ("body", "orelse", "finalbody"):
+            b = getattr(x, fld, None)
+            if isinstance(b, list) and any(y is stmt for y in b):
+                return b
+        if isinstance(x, ast.Try):
+            for h in x.handlers:
+                if any(y is stmt for y in h.body):
+                    return h.body
+    return None
+
+
+def _usable_at(value, stmt, block, use_line) -> bool:
+    """the temporary assigned by `stmt` (inside a loop) still holds `value` at line use_line: the use is in a later statement of the same block
+    (same iteration, after the assignment) and no statement in between re-binds a name the value reads, stores to an attribute / item of such a
+    name, or calls a method on it"""
+    if use_line is None or stmt not in block:
+        return False
+    later = block[block.index(stmt) + 1:]
+    if not later:
+        return False
+    end = max(getattr(s_, "end_lineno", s_.lineno) for s_ in later)
+    if not (later[0].lineno <= use_line <= end):
+        return False
+    reads = {y.id for y in ast.walk(value) if isinstance(y, ast.Name)}
+    # the temporary itself must not be mutated either (an object that is stepped / written to is not a value)
+    tgt = stmt.targets[0] if isinstance(stmt, ast.Assign) else stmt.target
+    if isinstance(tgt, ast.Name):
+        reads = reads | {tgt.id}
+    for s_ in later:
+        if s_.lineno > use_line:
+            break
+        for y in ast.walk(s_):
+            if getattr(y, "lineno", 0) > use_line:
+                continue
+            if isinstance(y, ast.Name) and isinstance(y.ctx, ast.Store) and y.id in reads:
+                return False
+            if isinstance(y, (ast.Attribute, ast.Subscript)) and isinstance(y.ctx, ast.Store):
+                base = y
+                while isinstance(base, (ast.Attribute, ast.Subscript)):
+                    base = base.value
+                if isinstance(base, ast.Name) and base.id in reads:
+                    return False
+            if isinstance(y, ast.Expr) and isinstance(y.value, ast.Call) and isinstance(y.value.func, ast.Attribute):
+                base = y.value.func.value
+                while isinstance(base, (ast.Attribute, ast.Subscript)):
+                    base = base.value
+                if isinstance(base, ast.Name) and base.id in reads and base.id not in ("self", "np", "logging"):
+                    return False
+    return True
 
 
 def _walk_scope(st):
@@ -820,3 +896,34 @@ def find(nodes, text: str, ctx: Optional[Ctx] = None, fixed: Optional[dict] = No
         if b is not None:
             out.append((x, b))
     return out
+
+
+def with_closure_temporaries(S, fi):
+    """copy of the nested function `fi` in which every free name that is a single-assignment temporary of the enclosing function is replaced by
+    its definition (so that a term extracted from the nested function is expressed in the enclosing function's primary names)"""
+    parent = getattr(fi, "parent", None)
+    if parent is None:
+        return fi
+    outer = Ctx(S, parent).local_defs()
+    fn = fi.node
+    bound = {a.arg for a in fn.args.posonlyargs + fn.args.args + fn.args.kwonlyargs}
+    for x in _walk_scope_fn(fn):
+        if isinstance(x, ast.Name) and isinstance(x.ctx, ast.Store):
+            bound.add(x.id)
+    pc = Ctx(S, parent)
+
+    class R(ast.NodeTransformer):
+        def visit_Name(self, x):
+            if isinstance(x.ctx, ast.Load) and x.id in outer and x.id not in bound:
+                return pc.resolve(outer[x.id])
+            return x
+
+    new = R().visit(copy.deepcopy(fn))
+    ast.fix_missing_locations(new)
+    import dataclasses
+    return dataclasses.replace(fi, node=new)
+
+
+def _walk_scope_fn(fn):
+    for st in fn.body:
+        yield from _walk_scope(st)
